@@ -458,7 +458,7 @@ def run_case(case, tier="quick") -> dict:
                         "recased:%s" % ("0" if o["changed"] == 0 else "1-2" if o["changed"] < 3 else "3+")],
                "props": o["props"]}
         bad = any(r["app"] and (not r["k"] or r["o"] is not None) for r in o["props"].values())
-        if bad or (case == 0 and i == 0):
+        if bad or (case in (0, 1, 2) and i == 0):
             rec["input"] = x
             rec["impl"] = {"base": o["base"], "recased_input": o["x2"], "cli": o["cli"], "k_why": o["k_why"]}
         results.append(rec)
